@@ -184,6 +184,8 @@ Qed.
 
 Lemma dmax_dok s : vt (ft s) -> dok (ft s) (dmax s).
 Proof. intros Hv. destruct (vt_bad _ Hv) as [_ H]. unfold dok, dmax. lia. Qed.
+Lemma max_cluster_geo s s' : s_h s' = s_h s -> s_p s' = s_p s -> max_cluster s' = max_cluster s.
+Proof. intros H1 H2. unfold max_cluster, count_of_clusters, total_sectors. rewrite H1, H2. reflexivity. Qed.
 Lemma dmax_geo s s' : s_h s' = s_h s -> s_p s' = s_p s -> dmax s' = dmax s.
 Proof. intros H1 H2. unfold dmax, ft, max_cluster, count_of_clusters, total_sectors. rewrite H1, H2. reflexivity. Qed.
 
@@ -243,11 +245,15 @@ Proof.
       { rewrite Hn. unfold Gen.calc_num_clusters. cbv zeta. fold (bpc s). unfold ceil_div.
         apply Z.div_le_lower_bound; [exact HB|]. nia. }
       assert (Hne : new <> []) by (intro; subst new; unfold lenZ in Hnn; cbn in Hnn; lia).
+      destruct (chain_raw _ _ _ Hch) as [Hraw Hle].
       assert (Hch1 : chain s1 c = (ch ++ new, true)).
-      { unfold chain, s1. cbn [s_fat upd_fat]. replace (ft (upd_fat s2 _ _)) with (ft s) by (rewrite <- Et2; reflexivity).
-        replace (dmax (upd_fat s2 _ _)) with (dmax s) by (symmetry; apply dmax_geo; [apply Hg2|apply Hg2]).
-        rewrite Hfat. apply extend_chain; try assumption; [apply dmax_dok; exact Hv|].
-        eapply Forall_impl; [|exact Hf]. cbv beta. intros a Ha. rewrite Hfree in Ha. lia. }
+      { apply chain_of_raw.
+        - unfold s1. cbn [s_fat upd_fat]. replace (ft (upd_fat s2 _ _)) with (ft s) by (rewrite <- Et2; reflexivity).
+          replace (dmax (upd_fat s2 _ _)) with (dmax s) by (symmetry; apply dmax_geo; [apply Hg2|apply Hg2]).
+          rewrite Hfat. apply extend_chain; try assumption; [apply dmax_dok; exact Hv|].
+          eapply Forall_impl; [|exact Hf]. cbv beta. intros a Ha. rewrite Hfree in Ha. lia.
+        - replace (max_cluster s1) with (max_cluster s) by (symmetry; apply max_cluster_geo; [apply Hg2|apply Hg2]).
+          apply Forall_app. split; [exact Hle|]. eapply Forall_impl; [|exact Hf]. cbv beta. intros a Ha. lia. }
       rewrite Hch1 in Hw'. destruct (write_chunks_form _ _ _ _ Hw') as (d & l & ->).
       exists (ch ++ new). split; [unfold chain_all; change (chain (upd_dev s1 d l) c) with (chain s1 c); rewrite Hch1; reflexivity|].
       split.
